@@ -80,18 +80,21 @@ Section Compose.
   Context {F D L : Type}.
   Variable convert : env -> @srcfile F -> bytes -> D.
   Variable owner : bytes -> bytes.
+  Variable is_local : bytes -> bool.
+  Variable ext_file : bytes -> option D.
   Variable deps_of : D -> list bytes.
   Variable link1 : D -> list L -> L.
 
-  (* findFileByPath as the bundle alone determines it *)
+  (* findFileByPath as the bundle (and the dependency set) alone determine it *)
   Definition spec_lookup (b : @bundle F) (path : bytes) : option D :=
-    map_get path (p_files (spec_pkg convert b (owner path))).
+    if is_local path then map_get path (p_files (spec_pkg convert b (owner path))) else ext_file path.
 
   Lemma lookup_in_sub b pc : cache_ok convert b pc ->
-    forall n d, lookup_in owner pc n = Some d -> spec_lookup b n = Some d.
+    forall n d, lookup_in owner is_local ext_file pc n = Some d -> spec_lookup b n = Some d.
   Proof.
-    intros [_ Hc] n d H. unfold lookup_in in H. destruct (map_get (owner n) pc) as [p|] eqn:G; [|discriminate].
-    unfold spec_lookup. rewrite <- (Hc _ _ G). exact H.
+    intros [_ Hc] n d H. unfold lookup_in in H. unfold spec_lookup. destruct (is_local n); [|exact H].
+    destruct (map_get (owner n) pc) as [p|] eqn:G; [|discriminate].
+    rewrite <- (Hc _ _ G). exact H.
   Qed.
 
   Definition both_ok (b : @bundle F) (pc : list (bytes * @pkg D)) (lc : list (bytes * L)) : Prop :=
@@ -103,7 +106,7 @@ Section Compose.
   Theorem compile_and_link_spec : forall lf rd rf,
     (forall n l, Permutation (lf n l) l) -> (forall n l, Permutation (rd n l) l) -> (forall n l, Permutation (rf n l) l) ->
     forall b, valid b -> forall fuel lfuel pc lc n pc' lc' out, both_ok b pc lc ->
-      compile_and_link convert lf rd rf owner deps_of link1 fuel lfuel b pc lc n = Some (pc', lc', out) ->
+      compile_and_link convert lf rd rf owner is_local ext_file deps_of link1 fuel lfuel b pc lc n = Some (pc', lc', out) ->
       both_ok b pc' lc'
       /\ map fst out = map fst (p_files (spec_pkg convert b n))
       /\ exists f, spec_list (spec_lookup b) deps_of link1 f (map fst (p_files (spec_pkg convert b n))) = Some (map snd out).
@@ -112,9 +115,9 @@ Section Compose.
     unfold compile_and_link in H.
     destruct (compile_package convert lf rd rf fuel b pc n) as [[pc1 files]|] eqn:Ec; [|discriminate].
     destruct (compile_package_spec convert lf rd rf P1 P2 P3 b Hv _ _ _ _ _ Hpc Ec) as [Ef Hpc1]. subst files.
-    destruct (link_all (lookup_in owner pc1) deps_of link1 lfuel lc (map fst (p_files (spec_pkg convert b n)))) as [[lc1 ls]|] eqn:El; [|discriminate].
+    destruct (link_all (lookup_in owner is_local ext_file pc1) deps_of link1 lfuel lc (map fst (p_files (spec_pkg convert b n)))) as [[lc1 ls]|] eqn:El; [|discriminate].
     inversion H; subst.
-    destruct (link_all_sub (lookup_in owner pc') (spec_lookup b) deps_of link1 (lookup_in_sub b pc' Hpc1) _ _ _ _ _ Hlc El) as [[f Hs] Hlc1].
+    destruct (link_all_sub (lookup_in owner is_local ext_file pc') (spec_lookup b) deps_of link1 (lookup_in_sub b pc' Hpc1) _ _ _ _ _ Hlc El) as [[f Hs] Hlc1].
     assert (Hlen : length ls = length (map fst (p_files (spec_pkg convert b n)))).
     { clear -Hs. revert ls Hs. induction (map fst (p_files (spec_pkg convert b n))) as [|x r IH]; intros ls Hs; cbn [spec_list fold_right] in Hs.
       - inversion Hs. reflexivity.
@@ -132,8 +135,8 @@ Section Compose.
     (forall n l, Permutation (lf2 n l) l) -> (forall n l, Permutation (rd2 n l) l) -> (forall n l, Permutation (rf2 n l) l) ->
     forall b, valid b -> forall f1 l1 f2 l2 pc1 lc1 pc2 lc2 n r1 r2 o1 o2 s1 s2,
       both_ok b pc1 lc1 -> both_ok b pc2 lc2 ->
-      compile_and_link convert lf1 rd1 rf1 owner deps_of link1 f1 l1 b pc1 lc1 n = Some (r1, s1, o1) ->
-      compile_and_link convert lf2 rd2 rf2 owner deps_of link1 f2 l2 b pc2 lc2 n = Some (r2, s2, o2) ->
+      compile_and_link convert lf1 rd1 rf1 owner is_local ext_file deps_of link1 f1 l1 b pc1 lc1 n = Some (r1, s1, o1) ->
+      compile_and_link convert lf2 rd2 rf2 owner is_local ext_file deps_of link1 f2 l2 b pc2 lc2 n = Some (r2, s2, o2) ->
       o1 = o2.
   Proof.
     intros lf1 rd1 rf1 lf2 rd2 rf2 P1 P2 P3 P4 P5 P6 b Hv f1 l1 f2 l2 pc1 lc1 pc2 lc2 n r1 r2 o1 o2 s1 s2 H1 H2 E1 E2.
@@ -149,11 +152,11 @@ Section Compose.
   Lemma compile_link_seq_ok : forall lf rd rf,
     (forall n l, Permutation (lf n l) l) -> (forall n l, Permutation (rd n l) l) -> (forall n l, Permutation (rf n l) l) ->
     forall b, valid b -> forall fuel lfuel calls pc lc, both_ok b pc lc ->
-      both_ok b (fst (compile_link_seq convert lf rd rf owner deps_of link1 fuel lfuel b pc lc calls))
-                (snd (compile_link_seq convert lf rd rf owner deps_of link1 fuel lfuel b pc lc calls)).
+      both_ok b (fst (compile_link_seq convert lf rd rf owner is_local ext_file deps_of link1 fuel lfuel b pc lc calls))
+                (snd (compile_link_seq convert lf rd rf owner is_local ext_file deps_of link1 fuel lfuel b pc lc calls)).
   Proof.
     intros lf rd rf P1 P2 P3 b Hv fuel lfuel. induction calls as [|n r IH]; intros pc lc Hok; cbn [compile_link_seq]; [exact Hok|].
-    destruct (compile_and_link convert lf rd rf owner deps_of link1 fuel lfuel b pc lc n) as [[[pc1 lc1] o]|] eqn:E.
+    destruct (compile_and_link convert lf rd rf owner is_local ext_file deps_of link1 fuel lfuel b pc lc n) as [[[pc1 lc1] o]|] eqn:E.
     - apply IH. exact (proj1 (compile_and_link_spec lf rd rf P1 P2 P3 b Hv _ _ _ _ _ _ _ _ Hok E)).
     - apply IH. exact Hok.
   Qed.
@@ -167,10 +170,10 @@ Section Compose.
     (forall n l, Permutation (lf1 n l) l) -> (forall n l, Permutation (rd1 n l) l) -> (forall n l, Permutation (rf1 n l) l) ->
     (forall n l, Permutation (lf2 n l) l) -> (forall n l, Permutation (rd2 n l) l) -> (forall n l, Permutation (rf2 n l) l) ->
     forall b, valid b -> forall f1 l1 f2 l2 earlier1 earlier2 n r1 r2 s1 s2 o1 o2,
-      let h1 := compile_link_seq convert lf1 rd1 rf1 owner deps_of link1 f1 l1 b [] [] earlier1 in
-      let h2 := compile_link_seq convert lf2 rd2 rf2 owner deps_of link1 f2 l2 b [] [] earlier2 in
-      compile_and_link convert lf1 rd1 rf1 owner deps_of link1 f1 l1 b (fst h1) (snd h1) n = Some (r1, s1, o1) ->
-      compile_and_link convert lf2 rd2 rf2 owner deps_of link1 f2 l2 b (fst h2) (snd h2) n = Some (r2, s2, o2) ->
+      let h1 := compile_link_seq convert lf1 rd1 rf1 owner is_local ext_file deps_of link1 f1 l1 b [] [] earlier1 in
+      let h2 := compile_link_seq convert lf2 rd2 rf2 owner is_local ext_file deps_of link1 f2 l2 b [] [] earlier2 in
+      compile_and_link convert lf1 rd1 rf1 owner is_local ext_file deps_of link1 f1 l1 b (fst h1) (snd h1) n = Some (r1, s1, o1) ->
+      compile_and_link convert lf2 rd2 rf2 owner is_local ext_file deps_of link1 f2 l2 b (fst h2) (snd h2) n = Some (r2, s2, o2) ->
       o1 = o2.
   Proof.
     intros lf1 rd1 rf1 lf2 rd2 rf2 P1 P2 P3 P4 P5 P6 b Hv f1 l1 f2 l2 e1 e2 n r1 r2 s1 s2 o1 o2 h1 h2 E1 E2.
